@@ -147,15 +147,23 @@ def graph_program(rnd):
     g = G.Graph(n)
     for (u, v) in edges:
         g.add_edge(u, v)
+    def with_constants(arr):
+        # raw Python booleans among the operands (next to the plain ints 0 / 1 the operator also carries: vertex numbers, sizes)
+        xs = list(arr)
+        if rnd.random() < 0.5:
+            for i in range(len(xs)):
+                if rnd.random() < 0.4:
+                    xs[i] = rnd.random() < 0.5
+        return xs
     if k == 0:
-        x = s.bool_array(n)
+        x = with_constants(s.bool_array(n))
         G.active_vertices_connected(s, x, g, use_graph_primitive=True)
     elif k == 1:
         sizes = [rnd.choice([None, 1, 2]) for _ in range(n)]
-        b = s.bool_array(len(edges))
+        b = with_constants(s.bool_array(len(edges)))
         G.division_connected_variable_groups_with_borders(s, group_size=sizes, is_border=b, graph=g, use_graph_primitive=True)
     else:
-        e = s.bool_array(len(edges))
+        e = with_constants(s.bool_array(len(edges)))
         G.active_edges_single_cycle(s, e, g, use_graph_primitive=True)
     return s
 
